@@ -30,3 +30,6 @@ func (x *Exec) shortPos(p token.Pos) string {
 	pp := x.L.Fset.Position(p)
 	return fmt.Sprintf("%s:%d", filepath.Base(pp.Filename), pp.Line)
 }
+
+// templateOnly: per replay template, the obligation-name fragments it covers (//gcv:only).
+var templateOnly = map[string][]string{}
